@@ -42,7 +42,7 @@ func genConfig(rng *rand.Rand) *genesis.GenesisConfig {
 	cfg := &genesis.GenesisConfig{
 		ChainIdentifier:     uint64(1 + rng.Intn(1000)),
 		ExtraData:           fmt.Sprintf("verif-%d", rng.Intn(1000000)),
-		GenesisTimestampSec: int64(1000000000 + rng.Intn(1000000)),
+		GenesisTimestampSec: genesisTimestamp(rng),
 		SporkAddress:        &spork,
 		PillarConfig:        &genesis.PillarContractConfig{},
 		TokenConfig:         &genesis.TokenContractConfig{},
@@ -213,4 +213,13 @@ func permuted(rng *rand.Rand, cfg *genesis.GenesisConfig) *genesis.GenesisConfig
 		rng.Shuffle(len(k.Sporks), func(i, j int) { k.Sporks[i], k.Sporks[j] = k.Sporks[j], k.Sporks[i] })
 	}
 	return c
+}
+
+// mostly a plausible time; now and then a boundary value of the field (absent / zero / negative / the first second)
+func genesisTimestamp(rng *rand.Rand) int64 {
+	switch rng.Intn(8) {
+	case 0:
+		return []int64{0, 0, -1, -1000000000, 1}[rng.Intn(5)]
+	}
+	return int64(1000000000 + rng.Intn(1000000))
 }
